@@ -37,9 +37,9 @@ KINDS = [
     "y_nan", "y_classes", "y_index_permuted", "y_index_shifted", "y_length", "ydev_index_permuted", "ydev_length",
     "ydev_classes", "x_not_dataframe", "xdev_not_dataframe", "y_not_series", "x_missing_column", "xdev_missing_column",
     "feature_in_two_lists", "string_in_quantitative", "value_not_in_ranking", "bad_sort_by", "ordinal_without_ranking",
-    "refit_good", "refit_bad", "transform_not_dataframe", "transform_missing_column",
+    "refit_good", "refit_bad", "refit_other", "transform_not_dataframe", "transform_missing_column",
 ]
-AFTER = {"refit_good", "refit_bad", "transform_not_dataframe", "transform_missing_column"}
+AFTER = {"refit_good", "refit_bad", "refit_other", "transform_not_dataframe", "transform_missing_column"}
 
 
 def strategy(tier):
@@ -137,6 +137,17 @@ def check_case(case) -> Outcome:
         if kind == "refit_good":
             res = call_fit(obj, cls, X, y, Xd, yd, has_dev)
             what = "second fit (valid data)"
+        elif kind == "refit_other":
+            # a second fit on a *different* valid sample: every other row, with a missing value planted in one
+            # feature column and one qualitative cell replaced by the value of another row
+            X2, y2 = X.iloc[::2].copy(), y.iloc[::2].copy()
+            cols = list(sample.X.columns)
+            col = cols[pos % len(cols)]
+            if len(X2) > 2:
+                X2[col] = X2[col].astype(object) if sample.specs[col]["kind"] in ("ordinal", "categorical") else X2[col].astype(float)
+                X2.iloc[variant % len(X2), X2.columns.get_loc(col)] = np.nan
+            res = call_fit(obj, cls, X2, y2, Xd, yd, has_dev)
+            what = "second fit (another valid sample)"
         elif kind == "refit_bad":
             yb = y.astype(object).copy()
             yb.iloc[i] = np.nan
